@@ -2,8 +2,10 @@ package main
 
 import (
 	"fmt"
+	"go/constant"
 	"go/token"
 	"go/types"
+	"math/big"
 	"os"
 	"path/filepath"
 	"sort"
@@ -344,8 +346,28 @@ func (P *Prog) isNonNilSentinel(g *ssa.Global) bool {
 			case *ssa.Call:
 				if c := x.Call.StaticCallee(); c != nil {
 					n := c.String()
-					if n == "errors.New" || n == "fmt.Errorf" {
+					if n == "errors.New" || n == "fmt.Errorf" || n == "math/big.NewInt" {
 						return true
+					}
+					// big.Int arithmetic returns its (non-nil) receiver
+					if strings.HasPrefix(n, "(*math/big.Int).") {
+						switch strings.TrimPrefix(n, "(*math/big.Int).") {
+						case "Div", "Add", "Sub", "Mul", "Exp", "Lsh", "Rsh", "SetUint64", "SetInt64", "SetBytes", "Set", "Neg", "Abs", "Quo", "Rem", "Mod":
+							return true
+						}
+					}
+				}
+			case *ssa.Extract:
+				// new(big.Int).SetString("<literal>", base): decided by evaluating the literal
+				if call, ok := x.Tuple.(*ssa.Call); ok && x.Index == 0 {
+					if c := call.Call.StaticCallee(); c != nil && c.String() == "(*math/big.Int).SetString" && len(call.Call.Args) == 3 {
+						lit, ok1 := call.Call.Args[1].(*ssa.Const)
+						base, ok2 := call.Call.Args[2].(*ssa.Const)
+						if ok1 && ok2 && lit.Value != nil && base.Value != nil {
+							if _, ok := new(big.Int).SetString(constant.StringVal(lit.Value), int(base.Int64())); ok {
+								return true
+							}
+						}
 					}
 				}
 			}
